@@ -56,6 +56,7 @@ type c06Monitor struct {
 	cur      *c06Req
 	all      map[string]*c06Req
 	iterBeg  map[string]time.Duration
+	lastEnd  time.Duration // end of the last completed iteration of any daemon in the Manager state
 	Terminal map[string]int
 }
 
@@ -88,6 +89,9 @@ func newC06Monitor(sc *Scen, limit int, timeout time.Duration) *c06Monitor {
 		}
 		beg, ok := m.iterBeg[inst]
 		delete(m.iterBeg, inst)
+		if ok {
+			m.lastEnd = s.W.Now()
+		}
 		if !ok || next != "Manager" || m.cur == nil || m.cur.terminal != "" {
 			return
 		}
@@ -408,6 +412,17 @@ func c06Run(u *Unit) {
 				break
 			}
 		}
+		// a request cannot end if the process that executes it never comes back from an attempt: with a request pending,
+		// some manager iteration must have completed during the last three minutes (the longest legitimate attempt -
+		// read-only ladder, catch-up wait - is well below that)
+		mon.mu.Lock()
+		if q := mon.cur; q != nil && q.terminal == "" && s.W.Now()-mon.lastEnd > 180*time.Second && s.W.Now()-q.filedAt > 200*time.Second {
+			if _, pend := s.Cached("switch"); pend {
+				sc.Violate("C06", "no-manager-iteration-completes-while-request-pending", fmt.Sprintf("request %s (%s, run_count %d) is pending and no iteration of a managing daemon has completed for %.0f s (last at %.1fs, lock holder %q)",
+					q.id, q.rec.Transition, q.rec.RunCount, (s.W.Now() - mon.lastEnd).Seconds(), mon.lastEnd.Seconds(), lockHolder(s)))
+			}
+		}
+		mon.mu.Unlock()
 		mon.mu.Lock()
 		var outs []string
 		for id, q := range mon.all {
